@@ -127,7 +127,7 @@ contract(
     returns=TBool,
     ensures=lambda c: c.result == istext_spec(c.block),
     pure=True,
-    props=["C14"],
+    props=["C14", "C01"],
     doc="float division treated as rational arithmetic (DESIGN 3.3)",
 )
 
@@ -141,7 +141,7 @@ contract(
         c.h.get("Hasher.fed", c.result).length() == 0,
         c.h.get("Hasher.name", c.result) == alg_of(c.name),
     ),
-    props=["C14"],
+    props=["C14", "C01"],
     doc="a fresh hasher of the algorithm the name stands for; nothing that existed before is touched (frame)",
 )
 
@@ -184,7 +184,7 @@ contract(
     returns=TBytes,
     modifies=_read_mod,
     ensures=lambda c: _read_post(c, lambda chunk: chunk),
-    props=["C14"],
+    props=["C14", "C01"],
     doc="hands on exactly the bytes it read, hashes them and counts them",
 )
 
@@ -200,7 +200,7 @@ contract(
     requires=lambda c: c.n >= 512,
     modifies=_read_mod,
     ensures=lambda c: _read_post(c, dos_hashed),
-    props=["C14"],
+    props=["C14", "C01"],
     doc="returns the RAW chunk; hashes the normalised chunk when its first 512 bytes sniff as text, else the chunk untouched",
 )
 
@@ -248,6 +248,6 @@ contract(
     modifies=lambda c: [("BinaryIO.remaining", c.fobj)],
     invariants={0: _fobj_inv},
     ensures=_fobj_post,
-    props=["C14"],
+    props=["C14", "C01"],
     doc="digest = reference digest of the whole content regardless of read chunking",
 )
